@@ -212,7 +212,7 @@ def shards(tier, seed):
     n = 48 if tier == 'quick' else 256
     step = (total + n - 1) // n
     items = [('strings', lo, min(total, lo + step)) for lo in range(0, total, step)]
-    items += [('decimal',), ('rawbytes',), ('long',), ('misc',)]
+    items += [('decimal',), ('rawbytes',), ('long',), ('misc',), ('cli',)]
     try:
         from props import c08
         items += c08.program_shards(tier, seed, tag='c06')
@@ -263,6 +263,9 @@ def run_shard(item):
                 probs = check_source(s2, res, 'misc', chunked=ch)
                 if probs:
                     report(s2, probs, res, 'misc', 'misc%d' % MISC.index(src))
+    elif kind == 'cli':
+        cli_batch(res)
+        res.sample({'cli': 'p8tool writep8 in.p8 ; p8tool build out.p8 --lua in.p8 ; build out.p8.png --lua in.lua'})
     elif kind == 'programs':
         from props import c08
         for src, meta in c08.programs_for_shard(item):
@@ -278,8 +281,84 @@ def run_shard(item):
     return res
 
 
+def compare_code(src, got, res, what):
+    """The code a command wrote (read back) must equal the source up to string re-spelling and a final newline."""
+    case = {'src': src, 'fam': 'cli', 'detail': what}
+    try:
+        a = reflex.lex(src)
+    except reflex.Reject:
+        return
+    res.evaluations += 1
+    res.nontriv((what, src))
+    if got.rstrip(b'\n') == src.rstrip(b'\n'):
+        res.outcome((what, 'identical'))
+        return
+    try:
+        b = reflex.lex(got)
+    except reflex.Reject:
+        res.violation('C06|cli|%s|unlexable' % what, '%s wrote %r for %r' % (what, got, src), case)
+        return
+    ka = [(t.kind, t.value if t.kind == 'string' and t.level is None else t.text) for t in a if t.kind not in ('newline',)]
+    kb = [(t.kind, t.value if t.kind == 'string' and t.level is None else t.text) for t in b if t.kind not in ('newline',)]
+    while ka and ka[-1][0] == 'space':
+        ka.pop()
+    while kb and kb[-1][0] == 'space':
+        kb.pop()
+    if ka != kb:
+        res.violation('C06|cli|%s|differs' % what, '%s wrote %r for the code %r' % (what, got, src), case)
+    else:
+        res.outcome((what, 'respelled'))
+
+
+def cli_batch(res):
+    import os
+    import shutil
+    import tempfile
+    from pico8 import tool
+    from pico8.game import file as p8file
+    from lib import carts
+    from lib import refcodec as rc
+    d = tempfile.mkdtemp(prefix='c06_')
+    try:
+        sources = [m for m in MISC if m.strip()] + [s_ for s_, _ in long_sources()[::9]] + [s_ for s_, _ in decimal_sources()[::97]]
+        for n, src in enumerate(sources):
+            try:
+                reflex.lex(src)
+                g = carts.make_game({}, version=33, code_lines=[src])
+            except Exception:
+                continue
+            inp = os.path.join(d, 'in%d.p8' % n)
+            # the input cart is written by hand so that the command under test is the only picotool writer involved
+            if any(c >= 0x80 or c < 0x20 and c not in (9, 10, 13) for c in src):
+                p8file.to_file(g, inp)
+            else:
+                open(inp, 'wb').write(rc.P8_HEADER + b'version 33\n__lua__\n' + src + (b'' if src.endswith(b'\n') else b'\n') +
+                                      b'__gfx__\n')
+            for what, args, result in (
+                    ('writep8', ['writep8', inp], os.path.join(d, 'in%d_fmt.p8' % n)),
+                    ('build-p8', ['build', os.path.join(d, 'o%d.p8' % n), '--lua', inp], os.path.join(d, 'o%d.p8' % n)),
+                    ('build-png', ['build', os.path.join(d, 'o%d.p8.png' % n), '--lua', inp], os.path.join(d, 'o%d.p8.png' % n))):
+                try:
+                    rc_ = tool.main(args)
+                    got = b''.join(p8file.from_file(result).lua.to_lines())
+                except Exception as e:
+                    res.violation('C06|cli|%s|raise|%s' % (what, type(e).__name__), 'p8tool %s on code %r raised %r' % (what, src, e),
+                                  {'src': src, 'fam': 'cli', 'detail': what})
+                    continue
+                if what == 'build-png':
+                    src_cmp = src.replace(b'\r', b' ')       # the .p8.png reader maps CR to space (C04)
+                else:
+                    src_cmp = src
+                compare_code(src_cmp, got, res, what)
+    finally:
+        shutil.rmtree(d, ignore_errors=True)
+
+
 def replay(case):
     res = ShardResult()
+    if case.get('fam') == 'cli':
+        cli_batch(res)
+        return [(s, v[0]) for s, v in res.violations.items()]
     src = case['src']
     fam = case.get('fam', 'misc')
     if case.get('detail') == 'qprint':
